@@ -26,7 +26,7 @@ LEVEL = "fault_enumeration"
 W_FIELDS = (
     Field("a", 1, "int32"), Field("s", 2, "string"), Field("sub", 3, "msg:Sub"),
     Field("r", 4, "int32", "repeated"), Field("extra", 5, "int64"), Field("o", 6, "int32", "optional"),
-    Field("m", 7, "string", "map", key="string"),
+    Field("m", 7, "string", "map", key="string"), Field("t", 8, "timestamp"), Field("w", 9, "wrap:double"),
 )
 SCHEMA = Schema("vfc10", (COLOR,), LIB_MSGS + (
     Msg("W", W_FIELDS),
@@ -43,6 +43,9 @@ ALPHABET: List[Tuple[str, Dict[str, Any], str]] = [
     ("W2", {"name": "x"}, "second-type"),
     ("W", {"s": "x" * 200}, "long"),
     ("W", {"m": {"": "", "k": "v"}}, "map-with-default-entry"),
+    # sizes computed by a path of their own: a Timestamp just before the epoch (negative seconds,
+    # positive nanos) and a wrapper holding -0.0
+    ("W", {"t": av.EPOCH - av.US, "w": -0.0}, "time-and-wrapper"),
 ]
 _S: Dict[str, Any] = {}
 
@@ -250,6 +253,41 @@ def eval_sequence(seq: Tuple[int, ...], reader: str, tally: Tally) -> List[Viola
                 bad("buffered-reader", f"io.BufferedReader(buffer_size={bufsize}) over the intact stream: load {k} {detail}; "
                     f"written {msgs[k]!r}", {"bufsize": bufsize, "k": k, "involved": [labels[k]]})
                 break
+    # raw (unbuffered) streams: an io.RawIOBase object over the bytes, and a real io.FileIO on a pipe
+    for kind in ("rawiobase", "fileio-pipe"):
+        tally.inc("raw_streams")
+        wfd = None
+        if kind == "rawiobase":
+            s = _RawBytes(full)
+        else:
+            import os
+            rfd, wfd = os.pipe()
+            os.write(wfd, full)
+            os.close(wfd)
+            s = os.fdopen(rfd, "rb", buffering=0)
+        try:
+            consumed = 0
+            for k, i in enumerate(seq):
+                tname, aval, _ = ALPHABET[i]
+                cls, mdef = reader_cls(bp, tname, reader)
+                try:
+                    got = cls().load(s, betterproto.SIZE_DELIMITED)
+                    tally.inc("edges")
+                    ok = bytes(got) == bodies[k] and (kind != "rawiobase" or s.tell() == bounds[k])
+                    detail = f"returned {got!r}"
+                except Exception as e:
+                    ok = False
+                    detail = f"raised {type(e).__name__}: {e}"
+                if not ok:
+                    bad("raw-stream", f"{kind} over the intact stream: load {k} {detail}; written {msgs[k]!r}",
+                        {"stream": kind, "k": k, "involved": [labels[k]]})
+                    break
+            else:
+                rest = s.read()
+                if rest:
+                    bad("raw-stream", f"{kind}: {len(rest)} bytes left after the last message", {"stream": kind})
+        finally:
+            s.close()
     # dedupe by signature within this sequence
     seen = set()
     uniq = []
@@ -259,6 +297,26 @@ def eval_sequence(seq: Tuple[int, ...], reader: str, tally: Tally) -> List[Viola
             seen.add(key)
             uniq.append(v)
     return uniq
+
+
+class _RawBytes(io.RawIOBase):
+    """A real io.RawIOBase (unbuffered) stream over bytes."""
+
+    def __init__(self, data: bytes):
+        super().__init__()
+        self._data, self._pos = data, 0
+
+    def readable(self) -> bool:
+        return True
+
+    def readinto(self, b) -> int:
+        chunk = self._data[self._pos:self._pos + len(b)]
+        b[:len(chunk)] = chunk
+        self._pos += len(chunk)
+        return len(chunk)
+
+    def tell(self) -> int:
+        return self._pos
 
 
 class _ShortReader:
